@@ -31,7 +31,8 @@ def parseDesc (s : String) : Option Desc :=
   | _ => none
 
 def bit : Char → Option Bool
-  | '0' => some false | '1' => some true | _ => none
+  | '0' => some false | '1' => some true | 'e' => some true   -- 'e': set to the empty string, still present
+  | _ => none
 
 def parseVars (s : String) : Option Vars :=
   match s.toList.map bit with
